@@ -168,5 +168,5 @@ pub fn run(ctx: &mut Ctx) {
     ];
     preamble(ctx);
     let t = ctx.tier;
-    ctx.run_part::<Soundness>(t.pick(400_000, 5_000_000));
+    ctx.run_part::<Soundness>(t.pick(400_000, 30_000_000));
 }
